@@ -8,16 +8,23 @@ META = dict(
           "1..60 nodes (big: 300..5000), shuffled node ids, sample sets leaves/all/internal/mixed/none, time classes "
           "int/intgap/half/unit(root<=1)/neg/negbig(-1e6 leaves)/pow10/huge(1e15)/hugefrac/tiny/float; (ts) forest-walk "
           "tree sequences, every marginal tree; (msp) msprime genealogies; (aln) discrete-genome tree sequences with "
-          "embedded/argument/missing reference sequences. Crossed with root (None and every node as subtree root), "
-          "precision {None,0,1,3,6,10,14,17}, node_labels {default, full, partial, empty, keys outside the tree}, "
-          "include_branch_lengths, legacy newick(); nexus include_trees x include_alignments x precision x "
-          "missing_data_character; FASTA wrap_width {0,1,7,60,L-1,L,L+1,default} through as_*/write_* to file "
-          "objects and paths. Every output string is read by an independent Newick/nexus/FASTA reader and compared "
+          "embedded/argument/missing reference sequences, a fixed share with >= 256 trees or a genome > 2^16; (thr) "
+          "forests under root_threshold on / one above the sample counts of the parentless nodes; (wide) node tables of "
+          "9..100001 rows (10^k +-1, > 2^15, > 2^16) with a small genealogy on the boundary and highest ids; extra time "
+          "classes carry (branch rounds up to the next power of ten) and extreme (1e300, denormals). Crossed with root "
+          "(None and every node as subtree root, Python and numpy ints), precision {None, 0..17}, node_labels {default, "
+          "full, partial, empty, keys outside the tree}, include_branch_lengths {left out, None, True, False}, legacy "
+          "newick() (positional / keyword precision, custom labels); Tree objects reached by at/at_index/first/last/"
+          "iteration/reversed/copy/seek/seek_index/prev-next with sample_lists/tracked_samples, the null tree; tree "
+          "sequences after file/pickle/tables round trips; the low-level writer with caller-sized buffers; nexus "
+          "include_trees x include_alignments x precision x missing_data_character; FASTA wrap_width {0,1,7,60,L-1,L,"
+          "L+1,2L+1,L/2,divisors of L,default} through as_*/write_* to StringIO, open files already holding text, "
+          "paths, pathlib, keyword. Every output string is read by an independent Newick/nexus/FASTA reader and compared "
           "with the forest computed from the edge rows. Distinct = sha1 of the row tuples; non-trivial = has edges."),
     REQUIRED=["newick-parse", "as_newick:fast", "as_newick:general", "newick-fast-vs-general",
               "newick-default-precision", "as_newick:custom-labels", "as_newick:no-branch-lengths",
               "newick-multiroot-must-raise", "legacy-newick", "enum-trees", "nexus-parsed", "nexus-tree", "fasta",
-              "alignments"],
+              "alignments", "ll-tight-buffer", "legacy-newick:custom-labels", "legacy-newick:labels-open"],
     ASSUMPTIONS=ASSUME_COMMON + [
         "Python's '%.{p}f' float formatting and glibc's printf are both correctly rounded (branch strings are "
         "compared literally)",
